@@ -334,11 +334,7 @@ func (it *Interp) conv(tdst, tsrc types.Type, x Value) Value {
 						r32 = tt.ZExt(x, 32)
 					}
 				}
-				if it.branch(tt.ULt(r32, tt.Const(32, 0x80))) {
-					return Str{[]*Term{tt.Trunc(r32, 8)}}
-				}
-				v := it.concretize(tt.ZExt(r32, 64), 64)
-				return it.mkStr(string(rune(v)))
+				return it.encodeRuneSym(r32)
 			case db.Info()&types.IsFloat != 0:
 				if x.Op != OpConst {
 					panic(engineErr("symbolic int to float conversion"))
@@ -541,7 +537,7 @@ func (it *Interp) callBuiltin(caller *frame, fn *ssa.Builtin, args []Value, site
 		if n <= cap(dst) {
 			out := dst[:n]
 			for i, v := range src {
-				it.store(&out[len(dst)+i], copyVal(v))
+				it.storeInPlace(&out[len(dst)+i], v)
 			}
 			return out
 		}
@@ -594,7 +590,7 @@ func (it *Interp) callBuiltin(caller *frame, fn *ssa.Builtin, args []Value, site
 			tmp[i] = copyVal(src[i])
 		}
 		for i := 0; i < n; i++ {
-			it.store(&dst[i], tmp[i])
+			it.storeInPlace(&dst[i], tmp[i])
 		}
 		return it.mkInt(n)
 	case "close":
@@ -613,7 +609,7 @@ func (it *Interp) callBuiltin(caller *frame, fn *ssa.Builtin, args []Value, site
 			}
 		case []Value:
 			for i := range x {
-				it.store(&x[i], zeroLike(it, x[i]))
+				it.storeInPlace(&x[i], zeroLike(it, x[i]))
 			}
 		}
 		return nil
@@ -861,4 +857,26 @@ func (it *Interp) backingOf(caller *frame, site ssa.Instruction, argIdx int) ([]
 		}
 	}
 	return nil, 0, false
+}
+
+// encodeRuneSym is utf8.AppendRune for a symbolic rune: forks on the encoding length only.
+func (it *Interp) encodeRuneSym(r *Term) Str {
+	tt := it.tt
+	c := func(v uint64) *Term { return tt.Const(32, v) }
+	b := func(t *Term) *Term { return tt.Trunc(t, 8) }
+	if it.branch(tt.ULt(r, c(0x80))) {
+		return Str{[]*Term{b(r)}}
+	}
+	if it.branch(tt.ULt(r, c(0x800))) {
+		return Str{[]*Term{b(tt.BOr(c(0xC0), tt.LShr(r, c(6)))), b(tt.BOr(c(0x80), tt.BAnd(r, c(0x3F))))}}
+	}
+	bad := tt.Or(tt.ULt(c(0x10FFFF), r), tt.And(tt.ULe(c(0xD800), r), tt.ULe(r, c(0xDFFF))))
+	if it.branch(bad) {
+		return it.mkStr("\uFFFD")
+	}
+	if it.branch(tt.ULt(r, c(0x10000))) {
+		return Str{[]*Term{b(tt.BOr(c(0xE0), tt.LShr(r, c(12)))), b(tt.BOr(c(0x80), tt.BAnd(tt.LShr(r, c(6)), c(0x3F)))), b(tt.BOr(c(0x80), tt.BAnd(r, c(0x3F))))}}
+	}
+	return Str{[]*Term{b(tt.BOr(c(0xF0), tt.LShr(r, c(18)))), b(tt.BOr(c(0x80), tt.BAnd(tt.LShr(r, c(12)), c(0x3F)))),
+		b(tt.BOr(c(0x80), tt.BAnd(tt.LShr(r, c(6)), c(0x3F)))), b(tt.BOr(c(0x80), tt.BAnd(r, c(0x3F))))}}
 }
